@@ -66,7 +66,7 @@ def one_edit(rng):
 
 class C03(Property):
     id = "C03"
-    lean_module = "RosuModel.Props.C03All"   # imports Props/C03Frame.lean (→ Props/C03.lean) and Props/C03File.lean; all in namespace Rosu.C03
+    lean_module = "RosuModel.Props.C03Decoded"   # imports Props/C03Edit.lean → Props/C03All.lean (Props/C03Frame.lean → Props/C03.lean, Props/C03File.lean); all in namespace Rosu.C03
     namespace = "Rosu.C03"
     design_ref = "5.3"
     required_theorems = ["title_line_sets_title", "artist_line_sets_artist", "edit_survives_metadata", "edit_frame_metadata",
@@ -77,7 +77,18 @@ class C03(Property):
                          "decode_block_independent_state", "decode_block_independent", "edit_frame_objects", "edit_frame_objects_maps",
                          "frameEdit_metadata", "frameEdit_editor", "frameEdit_colors", "frameEdit_general", "frameEdit_difficulty",
                          "frameEdit_background", "FrameEdit.trans",
-                         "list_blocks_shape", "edit_frame_objects_rep", "edit_frame_objects_maps_rep", "repMap_of_frameEdit", "toyEdited_frameEdit", "toyEdited_rep"]
+                         "list_blocks_shape", "edit_frame_objects_rep", "edit_frame_objects_maps_rep", "repMap_of_frameEdit", "toyEdited_frameEdit", "toyEdited_rep",
+                         # Props/C03Edit.lean: the edits as a type
+                         "Edit.decRepresentable", "fields_complete", "setCustomColor_keeps_customs", "setCustomColor_keeps_nodup", "setCustomColor_keeps_alpha",
+                         "edit_keeps_rep", "edit_keeps_opaque", "edits_keep_rep", "edits_keep_opaque", "edit_shows_value", "edit_leaves_field",
+                         "edits_leave_field", "edits_show_value", "frameEdit_applyEdit", "frameEdit_applyEdits",
+                         # Props/C03Decoded.lean: every decoded map
+                         "mapView_of_finish", "decoded_rep", "encode_ok_of_blocks", "repRecords_of_upToDS", "noDoubleSlash_of_rep", "upToDS_of_decInv",
+                         "edit_keeps_upToDS", "edits_keep_upToDS", "edits_keep_rep_decoded", "f16_decodesTo", "f16_hasDS", "f16_repaired", "edits_survive_decoded", "edit_survives_decoded",
+                         "edits_frame_decoded", "edit_frame_decoded", "edits_roundtrip_decoded_rep",
+                         "decodedSample_decodesTo", "sampleEdits_representable", "sampleEdited_survives", "sampleReread_eq",
+                         "sample2_decodesTo", "sample2_finishes", "sample2_timing", "sample2_objects_rep", "sample2Edits_representable",
+                         "sample2_reread_texts", "sample2_reread_numbers", "sample2_reread_lists"]
     partial_theorems = {
         "edit_survives_editor / _difficulty / _events / _general / _records (and the matching edit_frame_*)":
             "law-dependent: proved for every number codec satisfying CodecLaws (+ IntPrintLaw for AudioLeadIn), shown satisfiable by Lemmas/ToyCodec.lean; CodecLaws is now also a theorem "
@@ -105,6 +116,34 @@ class C03(Property):
             "predicates and collect_samples read alone), so C04.encoded_file_accepted and C02.roundtrip_rep_partial apply to it too. Non-vacuity: C04.toyMap (toy codec; two timing points, "
             "inherited lines, circle, two-segment slider, spinner, hold) and toyEdited (title, preview time, HP drain, background, colours, bookmarks edited). Still conditional: that a "
             "DECODED map satisfies RepMap is not a theorem (false in general: F17, F18, F20)",
+        "edits_survive_decoded / edit_survives_decoded / edits_frame_decoded / edit_frame_decoded / edits_roundtrip_decoded_rep (the property's own quantifier: every DECODED map, every representable edit)":
+            "Props/C03Edit.lean + Props/C03Decoded.lean. `Edit F P` has one constructor per field the `edit` request sets (37: ten metadata fields, audio / background file, "
+            "preview time, countdown offset, beat divisor, grid size, audio lead-in, the nine floats, five flags, mode, countdown, bookmarks, breaks, combo colours, one custom colour by "
+            "name — the driver's Model/Cmds/Whole.lean:applyEdit agrees by rfl on sample requests); `Edit.Representable` is the per-field wording of the property and is DECIDABLE "
+            "(metadata text: own trim, no LF; audio name: + no `//`, no backslash; background: empty or no comma / LF / backslash / `//` / outer quote; integers within +-(2^31-1), "
+            "ids and countdown offset positive; floats within the limit, not NaN, slider multiplier / tick rate inside the clamp as f64::clamp tests it; breaks with max(start,end)=end; "
+            "colours byte-sized with alpha 255; custom names trimmed, without `:`, LF, `//`, not starting with Combo). edit_keeps_rep: such an edit keeps RtFile.RepRecords (per field). "
+            "`DecodesTo bytes m` = the Beatmap decoder reads ANY byte string and its finaliser yields m; RepRecords of m is no longer assumed: it follows from the Decoded invariant "
+            "(C04.decoded_records_representable). Conclusions: encoding the edited map succeeds as soon as its two list blocks are written; the text decodes without I/O error; the "
+            "record view of the new state (and of the finalised map, whenever finalisation succeeds) is exactly the preserved view of the edited map; for each edit that no later edit "
+            "of the sequence touches, its field shows exactly its value (`Edit.shown`: the value; special_style as far as the format carries it = in mania; a custom colour as the list "
+            "with that name set); every one of the 41 record fields (`fields_complete`: they are the whole record view) that no edit touches reads as in the UNEDITED round trip "
+            "(edit_leaves_field is law-free and holds for every edit; a mode edit also touches special_style). For frame edits (all but mode / slider multiplier / tick rate / breaks) "
+            "edits_roundtrip_decoded_rep adds the hit-object / control-point frame (same object view, same finalised hit objects and control points or the same failure) and needs no "
+            "shape hypothesis. REMAINING HYPOTHESES, none of which is about the record sections of the decoded map: (1) codec side — CodecLaws / IntPrintLaw (theorems of the model's "
+            "IEEE codec up to FloatBitsLaw / FloatOfIntLaw about Lean's opaque Float), ConstFacts (closed facts about the decoder's eight constants; evaluated on Float/Float32 by "
+            "#guard, a test), FloatsRep m and Edit.CodecRep e (the codec represents the map's / the edit's float values: `Display` then `FromStr` returns them), in "
+            "edits_roundtrip_decoded_rep also SliderRt.CoordLaws (MapLaws); (2) NoDoubleSlash — finding F16, a decoded file name can contain `//`: edits_survive_decoded asks it of the EDITED map only "
+            "(edits_keep_rep_decoded: a decoded map is representable up to `//` in its names, RepUpToDS, and a name edit installs a clean name — f16_repaired: `AudioFilename: a\\\\b.mp3` "
+            "decodes to `a//b.mp3`, violates NoDoubleSlash, and the edit audio_file := `a/b.mp3` is covered); the frame clauses compare with the unedited round trip and ask it of the "
+            "decoded map; (3) the two LIST blocks — edits_survive_decoded / edits_frame_decoded assume, "
+            "for the edited (and for the frame clause also the unedited) map, that encodeTimingPoints / encodeHitObjects succeed with LF-free record lines (RtFile.ListBlockShape); "
+            "edits_roundtrip_decoded_rep instead assumes the list-block part of RepMap of the unedited decoded map (RtTiming.RepTimingMap, every object SliderRt.RepObject) and `encode m = ok`. "
+            "That a decoded map meets these is NOT a theorem and is false in general: F17 (path shapes the legacy path string cannot carry), F18 / F21 (per-node and trailing-blank sample "
+            "file names), F20 (written length beyond the decoder's limit), non-finite or over-limit collected sample times; F22 (timing points within EPSILON merge on re-reading) does not "
+            "break these hypotheses but is part of the list blocks' own round trip (C02), which C03 only compares between the edited and the unedited re-decode. Toy-codec instances, all hypotheses discharged: the hostile 19-line file of C04Decoded decoded, edited "
+            "(title with `:` and `//`, background name, combo colours), encoded, decoded (sampleEdited_survives; kernel-evaluated sampleReread_eq); the same file with a timing point and a "
+            "circle (sample2_*: RepTimingMap, RepObject proved of the DECODED map) under nine edits incl. a replaced custom colour (kernel-evaluated sample2_reread_*)",
         "encode_*_depends_only_on / decode_block_independent(_state)":
             "unconditional (no codec law): the [HitObjects] block is a function of (hit objects, mode); the [TimingPoints] block of (control points, hit objects, mode, format version, "
             "slider multiplier, slider tick rate), failures included. For two files of the encoder's shape (version line, eight blocks of record lines in canonical order) with the same "
@@ -119,12 +158,16 @@ class C03(Property):
                   "(edit_frame_objects: an edit that leaves mode, slider multiplier, tick rate, breaks, format version, control points and hit objects alone yields the same re-decoded hit "
                   "objects and control points), under the codec laws and the assumption that the unedited map's two list blocks are LF-free record lines; that assumption is discharged for maps "
                   "satisfying RepMap (edit_frame_objects_rep: record sections, collected control points and every hit object representable — via C04's timing_block_shape and "
-                  "hitobjects_block_accepted), and the edited map is RepMap again (repMap_of_frameEdit); the list "
+                  "hitobjects_block_accepted), and the edited map is RepMap again (repMap_of_frameEdit). For DECODED maps (the property's own quantifier) the representability of the "
+                  "record sections is a theorem, not an assumption: with `Edit` (37 fields), decidable `Edit.Representable` and edit_keeps_rep, edits_survive_decoded / edits_frame_decoded / "
+                  "edits_roundtrip_decoded_rep show — for every byte string that decodes, every sequence of representable edits — that the edited fields read back exactly and all other "
+                  "record fields (41, the whole record view) read as in the unedited round trip, under the codec laws, FloatsRep, the F16 exclusion NoDoubleSlash (for the edited map; for the frame clause also the decoded one), and hypotheses on the two "
+                  "list blocks only (their shape, or RepTimingMap + RepObject of the decoded map — false in general: F17, F18, F20, F21, F22); the list "
                   "blocks are shown to be functions of exactly the fields named, and the decoder's object / control-point state to depend on the record blocks only through mode, default "
                   "sample bank / volume, slider multiplier and breaks. Decoder+encoder model compared with the code on decode → edit through the public fields → encode → decode (identical text and map). "
                   "The property is evaluated on the real code for single- and multi-field edits drawn from per-field generators (strings with ':', '//', ',', quotes, brackets, header- and "
                   "version-like text, non-ASCII; boundary numbers; flags, mode, countdown; bookmarks; colours; breaks).")
-    technique = "Lean 4 proof (section- and record-file-level edit/frame theorems incl. the hit-object / timing-point frame; law-dependent where floats are printed) + `edit` correspondence + implementation-level edit/frame oracle"
+    technique = "Lean 4 proof (section- and record-file-level edit/frame theorems incl. the hit-object / timing-point frame, instantiated for every decoded map through the Decoded invariant; law-dependent where floats are printed) + `edit` correspondence + implementation-level edit/frame oracle"
     trusted_base = [
         "Lean 4.33.0 kernel; axioms ⊆ {propext, Classical.choice, Quot.sound} per #print axioms",
         "hand-written decode + encode models tied to /repo by the `edit` differential of this run",
